@@ -1747,7 +1747,7 @@ extern "C" {
     fn a_version_set_alpha(ctx: *mut version, alpha: *const u8);
     fn a_version_alpha(ctx: *const version, alpha: &mut [u8; 5]);
     fn a_version_parse(ctx: *mut version, ver: *const u8) -> c_uint;
-    fn a_version_tostr(ctx: *const version, p: *mut u8, n: usize) -> c_int;
+    fn a_version_tostr(ctx: *const version, p: *mut u8, n: usize) -> c_uint;
     fn a_version_cmp(ctx: *const version, rhs: *const version) -> c_int;
     fn a_version_lt(ctx: *const version, rhs: *const version) -> bool;
     fn a_version_gt(ctx: *const version, rhs: *const version) -> bool;
@@ -1785,7 +1785,7 @@ impl version {
     }
     /// convert version to string
     #[inline(always)]
-    pub fn tostr(&self, ver: &mut [u8]) -> c_int {
+    pub fn tostr(&self, ver: &mut [u8]) -> c_uint {
         unsafe { a_version_tostr(self, ver.as_mut_ptr(), ver.len()) }
     }
     /// algorithm library version check
